@@ -23,6 +23,9 @@ pub fn set_clock_ns(ns: i64, tick_ns: i64) {
     REALTIME_NS.store(ns, Ordering::SeqCst);
     TICK_NS.store(tick_ns, Ordering::SeqCst);
 }
+pub fn reset_clock_reads() {
+    CLOCK_READS.store(0, Ordering::SeqCst);
+}
 pub fn clear_clock() {
     REALTIME_NS.store(i64::MIN, Ordering::SeqCst);
 }
